@@ -105,14 +105,32 @@ def iter_atomic_values(xsd_type: XsdTypeProtocol) -> Iterator[aliases.AtomicType
         elif hasattr(root_type, 'member_types'):
             for member_type in root_type.member_types:
                 yield from _iter_values(member_type, depth + 1)
+        elif (builtin_type := _builtin_base(root_type)) is not None:
+            yield atomic_values[builtin_type.name]  # type: ignore[index]
+
+    def _builtin_base(base_type: Optional[XsdTypeProtocol]) -> Optional[XsdTypeProtocol]:
+        # the nearest built-in type in the derivation chain (xs:integer for a restriction
+        # of xs:integer, not its primitive type xs:decimal), if the chain is available
+        for _ in range(15):
+            if base_type is None or base_type.name in atomic_values:
+                return base_type
+            elif hasattr(base_type, 'member_types'):
+                return None  # a union: its member types are tried in order
+            base_type = getattr(base_type, 'item_type', None) or getattr(base_type, 'base_type', None)
+        return None
 
     atomic_values = _ATOMIC_VALUES[xsd_type.xsd_version]
     if xsd_type.name in atomic_values:
         yield atomic_values[xsd_type.name]
     elif xsd_type.is_simple() or (simple_type := xsd_type.simple_type) is None:
-        yield from _iter_values(xsd_type.root_type, 1)
+        if (builtin_type := _builtin_base(xsd_type)) is not None:
+            yield atomic_values[builtin_type.name]  # type: ignore[index]
+        else:
+            yield from _iter_values(xsd_type.root_type, 1)
     elif simple_type.name in atomic_values:
         yield atomic_values[simple_type.name]
+    elif (builtin_type := _builtin_base(simple_type)) is not None:
+        yield atomic_values[builtin_type.name]  # type: ignore[index]
     else:
         yield from _iter_values(simple_type.root_type, 1)
 
